@@ -164,6 +164,10 @@ func genRef(r *Rand, p *Plan, tier string, focus string) {
 		o.Filters, o.Overlap, o.V6 = true, true, true
 	case "C07":
 		o.OddAuth = r.Chance(30)
+		o.Keychain = true
+	case "C10", "C18":
+		o.Keychain = true
+		o.OddAuth = r.Chance(15)
 	}
 	d := GenDoc(r, o)
 	d.Normalize()
@@ -297,4 +301,136 @@ func c13Addr(r *Rand, d model.Doc, idx int) (string, bool) {
 		ip := AddrIn(r, pfx, false)
 		return net.JoinHostPort(ip.String(), port), false
 	}
+}
+
+// ---- C14: no client input crashes the server or disturbs other clients -----------------
+
+func init() {
+	register("C14", genC14)
+}
+
+// controlScripts is a known-good exchange: PAP login, command authorization, accounting start.
+func (g *refGen) controlScripts(scope string) []SessScript {
+	var user string
+	for _, u := range g.d.Users {
+		for _, s := range u.Scopes {
+			if s == scope && g.pws[u.Name] != "" && user == "" {
+				user = u.Name
+			}
+		}
+	}
+	if user == "" {
+		for _, u := range g.d.Users {
+			for _, s := range u.Scopes {
+				if s == scope && user == "" {
+					user = u.Name
+				}
+			}
+		}
+	}
+	return []SessScript{
+		SessPAP(g.nextSid(), 0xc1, 0, user, g.pws[user]),
+		SessAuthor(g.nextSid(), 0xc0, 0, user, []string{"service=shell", "cmd=show", "cmd-arg=system"}),
+		SessAcct(g.nextSid(), 0xc0, 0, 1, user, 2, []string{"task_id=1", "cmd=show system"}),
+	}
+}
+
+func genC14(r *Rand, p *Plan, tier string) {
+	p.Family = "ref-C14"
+	p.Scen.Server = "ref"
+	p.Scen.Format = PickOf(r, "yaml", "json")
+	d := GenDoc(r, DocOpts{Keychain: true, OddAuth: true, InvalidRegex: true, Filters: r.Chance(20)})
+	d.Normalize()
+	g := &refGen{r: r, d: d, sid: uint32(r.Intn(1 << 20))}
+	g.names, g.pws = DocUsers(d)
+	p.Scen.Docs = []model.Doc{d}
+	p.Scen.Faulty = false
+	nHost := 1 + r.Intn(3)
+	idx := 0
+	addControl := func(notBefore int) {
+		scopeIdx := r.Intn(len(d.Secrets))
+		cs := ClientSpec{Addr: ClientAddrFor(r, d, scopeIdx, idx), Tag: "control", NotBefore: notBefore}
+		adm := RefAdmission(d, &cs)
+		cs.Key = []byte(adm.Key)
+		cs.Ops = Interleave(r, g.controlScripts(adm.Scope), false)
+		cs.Ops = append(cs.Ops, Op{Kind: "close"})
+		p.Scen.Clients = append(p.Scen.Clients, cs)
+		idx++
+	}
+	addControl(0)
+	for h := 0; h < nHost; h++ {
+		scopeIdx := r.Intn(len(d.Secrets))
+		cs := ClientSpec{Addr: ClientAddrFor(r, d, scopeIdx, idx), Tag: "hostile", NotBefore: r.Intn(10)}
+		adm := RefAdmission(d, &cs)
+		cs.Key = []byte(adm.Key)
+		if r.Chance(20) {
+			cs.Key = []byte(r.token("W"))
+		}
+		flags := PickOf(r, uint8(0), 0, 1)
+		// a valid prefix putting the connection into some handler state
+		var scripts []SessScript
+		for k := r.Intn(3); k > 0; k-- {
+			switch r.Intn(3) {
+			case 0:
+				scripts = append(scripts, g.authenSess(adm.Scope, flags))
+			case 1:
+				scripts = append(scripts, g.authorSess(adm.Scope, flags))
+			default:
+				scripts = append(scripts, g.acctSess(adm.Scope, flags, true))
+			}
+		}
+		cs.Ops = Interleave(r, scripts, true)
+		// then hostile material
+		nBad := 1 + r.Intn(4)
+		for k := 0; k < nBad; k++ {
+			switch r.Intn(9) {
+			case 0:
+				cs.Ops = append(cs.Ops, Op{Kind: "raw", Raw: r.Bytes(r.Len(400))})
+			case 1: // valid header, random body
+				n := r.Len(300)
+				hdr := model.Header{Version: r.version(), Type: uint8(1 + r.Intn(3)), Seq: uint8(1 + 2*r.Intn(5)), Flags: flags, Session: g.nextSid(), Length: uint32(n)}
+				cs.Ops = append(cs.Ops, Op{Kind: "raw", Raw: append(hdr.Encode(), r.Bytes(n)...)})
+			case 2: // mutated valid packet
+				s := g.authenSess(adm.Scope, flags)
+				pk := *s.Pkts[0]
+				pk.Session = g.nextSid()
+				bit := r.Intn(8 * len(pk.Wire(cs.Key)))
+				pk.FlipBit = &bit
+				cs.Ops = append(cs.Ops, Op{Kind: "send", Pkt: &pk})
+			case 3: // every AAA body kind at a START position, with odd lengths
+				typ := uint8(1 + r.Intn(3))
+				kind := PickOf(r, model.KAuthenStart, model.KAuthenCont, model.KAuthenReply, model.KAuthorReq, model.KAuthorReply, model.KAcctReq, model.KAcctReply)
+				cs.Ops = append(cs.Ops, Op{Kind: "send", Pkt: &PktSpec{Ver: r.version(), Type: typ, Seq: 1, Flags: flags, Session: g.nextSid(), Body: GenBody(r, kind, r.Chance(30))}})
+			case 4: // inconsistent length octets
+				b := GenBody(r, PickOf(r, model.KAuthenStart, model.KAuthorReq, model.KAcctReq), false).Encode()
+				if len(b) > 9 {
+					b[4+r.Intn(5)] = byte(r.Intn(256))
+				}
+				typ := uint8(1 + r.Intn(3))
+				cs.Ops = append(cs.Ops, Op{Kind: "send", Pkt: &PktSpec{Ver: r.version(), Type: typ, Seq: 1, Flags: flags, Session: g.nextSid(), Body: BodySpec{Kind: "raw", Raw: b}}})
+			case 5: // oversize announcement
+				l := PickOf(r, uint32(65537), 1<<24, 0xffffffff)
+				tr := 12 + r.Intn(40)
+				cs.Ops = append(cs.Ops, Op{Kind: "send", Pkt: &PktSpec{Ver: 0xc0, Type: 1, Seq: 1, Flags: flags, Session: g.nextSid(), Body: BodySpec{Kind: "raw", Raw: r.Bytes(64)}, LenOverride: &l, Trunc: &tr}})
+			case 6: // truncated packet then close
+				s := g.acctSess(adm.Scope, flags, true)
+				pk := *s.Pkts[0]
+				tr := r.Intn(len(pk.Wire(cs.Key)))
+				pk.Trunc = &tr
+				cs.Ops = append(cs.Ops, Op{Kind: "send", Pkt: &pk})
+			case 7: // empty and tiny bodies
+				cs.Ops = append(cs.Ops, Op{Kind: "send", Pkt: &PktSpec{Ver: r.version(), Type: uint8(1 + r.Intn(3)), Seq: 1, Flags: flags, Session: g.nextSid(), Body: BodySpec{Kind: "raw", Raw: r.Bytes(r.Intn(10))}}})
+			case 8: // an honest login of a user whose authenticator is oddly configured
+				u := g.names[r.Intn(len(g.names))]
+				scripts := []SessScript{SessPAP(g.nextSid(), 0xc1, flags, u, PwPool[r.Intn(len(PwPool))].Pw)}
+				cs.Ops = append(cs.Ops, Interleave(r, scripts, true)...)
+			}
+		}
+		cs.Ops = append(cs.Ops, Op{Kind: PickOf(r, "close", "reset", "idle")})
+		p.Scen.Clients = append(p.Scen.Clients, cs)
+		idx++
+	}
+	addControl(20 + r.Intn(30))
+	p.Tape = r.Tape(1500)
+	p.MaxSteps = 5000
 }
